@@ -127,7 +127,15 @@ type State struct {
 	notes   []string
 	asserts int
 	ghost   map[string]Value
+	ghosts  []ghostTok // scalar-encoder stub tokens (index+1 is printed as the placeholder)
 	done    *Outcome
+}
+
+// ghostTok records what a scalar text-encoder stub was asked to encode.
+type ghostTok struct {
+	kind  string // int | float | str | b64
+	val   *T     // int value / float bits
+	bytes []*T   // string / binary content
 }
 
 type forkReq struct{ cond *T }
@@ -226,6 +234,8 @@ func (st *State) clone() *State {
 	n.nondet = st.nondet[:len(st.nondet):len(st.nondet)]
 	st.nondet = st.nondet[:len(st.nondet):len(st.nondet)]
 	n.notes = st.notes[:len(st.notes):len(st.notes)]
+	n.ghosts = st.ghosts[:len(st.ghosts):len(st.ghosts)]
+	st.ghosts = st.ghosts[:len(st.ghosts):len(st.ghosts)]
 	n.reached = make(map[string]bool, len(st.reached))
 	for k := range st.reached {
 		n.reached[k] = true
